@@ -51,15 +51,16 @@ TARGETS = {
     "c14": (["c14_harness.cpp"], CORE_SRC, False, BASE_LIBS),
     "server": ([], SERVER_SRC, True, BOOST_LIBS + CAPNP_LIBS + BASE_LIBS),
     "cachegen": (["cachegen.cpp"], [], True, CAPNP_LIBS + BASE_LIBS),
+    "decode": (["decode.cpp"], [], True, CAPNP_LIBS + BASE_LIBS),
     "loader": (["loader_harness.cpp"], CORE_SRC + FETCH_SRC, True, CAPNP_LIBS + BASE_LIBS),
 }
 
 
 # targets compiled WITHOUT -DTRROUTING_VERIF: the real server binary must be the production code (the yield-point
 # hooks of DESIGN.md section 8 expand to nothing, and nothing has to supply trrouting_verif_point); cachegen uses no repo code
-NO_GUARD = {"server", "cachegen"}
+NO_GUARD = {"server", "cachegen", "decode"}
 
-SETUP_TARGETS = [("core", "asan"), ("server", "asan"), ("cachegen", "plain"), ("c14", "asan"), ("c14", "tsan")]
+SETUP_TARGETS = [("core", "asan"), ("server", "asan"), ("cachegen", "plain"), ("decode", "plain"), ("loader", "asan"), ("c14", "asan"), ("c14", "tsan")]
 
 
 class BuildError(Exception):
